@@ -210,11 +210,19 @@ def gen_rows(rng, lo, hi, n):
     return rows
 
 
+def has_roc(i):
+    return i % 3 == 1
+
+
 def rows_csv(rows):
     lines = [",".join(HEADER)]
     for i, r in enumerate(rows):
         lines.append(",".join(["S%d" % i, R.iso(r["td"]), R.iso(r["td"] + 2), "Buy", "10", "2.5", "1",
                                r["cur"] or "", r["fx"] or "", r["ccur"] or "", r["cfx"] or ""]))
+        if has_roc(i):
+            # a return of capital in the same currency, with the same rate cell, traded the same day
+            lines.append(",".join(["S%d" % i, R.iso(r["td"]), R.iso(r["td"] + 2), "RoC", "", "0.5", "",
+                                   r["cur"] or "", r["fx"] or "", "", ""]))
     return "\n".join(lines) + "\n"
 
 
@@ -317,7 +325,7 @@ def check_rows(res, ctx, batch):
             l = []
             for k in range(len(rows)):
                 s = io["secs"].get("S%d" % k)
-                if s is None or s["err"] is not None or len(s["rows"]) != 1:
+                if s is None or s["err"] is not None or len(s["rows"]) != (2 if has_roc(k) else 1):
                     l.append(None)
                 else:
                     l.append((Fraction(s["rows"][0]["rate"]), Fraction(s["rows"][0]["crate"])))
@@ -381,15 +389,19 @@ def check_rows(res, ctx, batch):
             # currency ("$<CAD value>" and, for a foreign currency, "(<value> <CUR>)" underneath)
             for k, (r, (tx, cm)) in enumerate(zip(rows, exp)):
                 cells = (io["secs"].get("S%d" % k) or {}).get("cells")
-                if not isinstance(cells, list) or len(cells) != 1:
+                if not isinstance(cells, list) or len(cells) != (2 if has_roc(k) else 1):
                     continue
                 etx = tx[1] if tx[0] == "rate" else Fraction(1)
                 ecm = cm[1] if cm[0] == "rate" else etx
                 tcur = (r["cur"] or "CAD").upper()
                 ccur = (r["ccur"] or tcur).upper()
-                for name, cell, val, cur, rate in (("Amount", cells[0][0], Fraction(25), tcur, etx),
-                                                   ("Amt/Share", cells[0][1], Fraction(5, 2), tcur, etx),
-                                                   ("Commission", cells[0][2], Fraction(1), ccur, ecm)):
+                checks = [("Amount", cells[0][0], Fraction(25), tcur, etx),
+                          ("Amt/Share", cells[0][1], Fraction(5, 2), tcur, etx),
+                          ("Commission", cells[0][2], Fraction(1), ccur, ecm)]
+                if has_roc(k):
+                    checks += [("Amount of the RoC row", cells[1][0], Fraction(5), tcur, etx),
+                               ("Amt/Share of the RoC row", cells[1][1], Fraction(1, 2), tcur, etx)]
+                for name, cell, val, cur, rate in checks:
                     st["cells-checked"] += 1
                     bad = cell_problem(cell, val, cur, rate)
                     if bad:
